@@ -581,7 +581,7 @@ impl<'de> Deserialize<'de> for Tagged {
 // the operations
 // ------------------------------------------------------------------------------------------------
 fn bad_events(evs: &[Ev]) -> u64 {
-    evs.iter().filter(|e| matches!(e, Ev::BadDtor { .. } | Ev::BadRead { .. } | Ev::BadDealloc { .. } | Ev::UnknownDealloc { .. })).count() as u64
+    evs.iter().filter(|e| matches!(e, Ev::BadDtor { .. } | Ev::BadRead { .. } | Ev::BadDealloc { .. } | Ev::UnknownDealloc { .. } | Ev::Overrun { .. })).count() as u64
 }
 fn allocs(evs: &[Ev]) -> i64 {
     evs.iter().filter(|e| matches!(e, Ev::Alloc { .. })).count() as i64
